@@ -172,6 +172,8 @@ def prepare(prop, module_file, extra_targets=()):
             # is the driver itself still buildable?
             rc2, log2 = lake_build(['model'])
             b.model_ok = rc2 == 0
+            global MODEL_AVAILABLE
+            MODEL_AVAILABLE = b.model_ok
             if not b.model_ok:
                 b.lean_errs += [e for e in lean_errors(log2) if e not in b.lean_errs]
         b.theorems = [t for f in [module_file] + b.companions for t in theorems_of(f)]
@@ -220,8 +222,15 @@ def _run_shard(cmd, lines, timeout):
     return out
 
 
+MODEL_AVAILABLE = True   # set by prepare(): false when the model driver does not build against the regenerated Gen files
+
+
 def run_stream(cmd, lines, shards=None, timeout=3000):
     """run lines through `cmd`, sharded round-robin over the cores; preserves order"""
+    if cmd and cmd[0] == MODEL and not MODEL_AVAILABLE:
+        # the proof obligations are already reported broken; keep searching for a failing input with the implementation-vs-oracle
+        # comparisons: the model stream is replaced by the matching Rust profile so that correspondence sites compare equal
+        cmd = [RUST['checked' if 'checked' in cmd else 'fast']]
     n = len(lines)
     if n == 0:
         return []
@@ -302,6 +311,10 @@ def load_known():
 def finish(rep, build, level, coverage_extra, assumptions, n_obligations=None):
     """print verdict lines, write evidence, return exit code"""
     broken = build.broken if build else []
+    if not MODEL_AVAILABLE:
+        rep.notes.append('the model driver does not build against the regenerated Gen files: correspondence not run (model stream replaced by the '
+                         'Rust stream), the search for a failing input used the implementation-vs-oracle comparisons only')
+        rep.corr_compared = 0
     found_inputs = [v for v in rep.violations if v['failing_input_found']]
     others = [v for v in rep.violations if not v['failing_input_found']]
     lines = []
